@@ -100,6 +100,9 @@ def verifyZKP4 (K : Crypto) (cr g3a d7 qaqb ra ix : Nat) : Bool :=
   let r := mulModP (K.gexp qaqb d7) (K.gexp ra cr)
   cr == hashMPIsBN K ix [l, r]
 
+/-- isExponent: the range the protocol prescribes for the proof exponents (repaired code) -/
+def isExponent (d : Nat) : Bool := decide (1 ≤ d) && decide (d < dhQ)
+
 /-! ### message 1 -/
 def smp1Gen (K : Crypto) (a2 a3 r2 r3 : Nat) : Smp1State :=
   let (c2, d2) := generateZKP K r2 a2 1
@@ -107,7 +110,7 @@ def smp1Gen (K : Crypto) (a2 a3 r2 r3 : Nat) : Smp1State :=
   ⟨a2, a3, r2, r3, ⟨gexp1 K a2, gexp1 K a3, c2, c3, d2, d3, false, []⟩⟩
 
 def smp1Verify (K : Crypto) (isGE : Nat → Bool) (m : Smp1Msg) : Bool :=
-  isGE m.g2a && isGE m.g3a && verifyZKP K m.d2 m.g2a m.c2 1 && verifyZKP K m.d3 m.g3a m.c3 2
+  isGE m.g2a && isGE m.g3a && (isExponent m.d2 && isExponent m.d3) && verifyZKP K m.d2 m.g2a m.c2 1 && verifyZKP K m.d3 m.g3a m.c3 2
 
 /-! ### message 2 -/
 def smp2Gen (K : Crypto) (y : Nat) (m1 : Smp1Msg) (b2 b3 r2 r3 r4 r5 r6 : Nat) : Smp2State :=
@@ -125,6 +128,7 @@ def smp2Gen (K : Crypto) (y : Nat) (m1 : Smp1Msg) (b2 b3 r2 r3 r4 r5 r6 : Nat) :
 
 def smp2Verify (K : Crypto) (isGE : Nat → Bool) (s1 : Smp1State) (m : Smp2Msg) : Bool :=
   isGE m.g2b && isGE m.g3b && isGE m.pb && isGE m.qb &&
+  (isExponent m.d2 && isExponent m.d3 && isExponent m.d5 && isExponent m.d6) &&
   verifyZKP K m.d2 m.g2b m.c2 3 && verifyZKP K m.d3 m.g3b m.c3 4 &&
   verifyZKP2 K (K.gexp m.g2b s1.a2) (K.gexp m.g3b s1.a3) m.d5 m.d6 m.pb m.qb m.cp 5
 
@@ -146,6 +150,7 @@ def smp3Gen (K : Crypto) (x : Nat) (s1 : Smp1State) (m2 : Smp2Msg) (r4 r5 r6 r7 
 
 def smp3Verify (K : Crypto) (isGE : Nat → Bool) (s2 : Smp2State) (m : Smp3Msg) : Res Bool := do
   if !(isGE m.pa && isGE m.qa && isGE m.ra) then return false
+  if !(isExponent m.d5 && isExponent m.d6 && isExponent m.d7) then return false
   if !verifyZKP2 K s2.g2 s2.g3 m.d5 m.d6 m.pa m.qa m.cp 6 then return false
   let qaqb ← divModP K m.qa s2.qb
   return verifyZKP4 K m.cr s2.g3a m.d7 qaqb m.ra 7
@@ -164,7 +169,7 @@ def smp4Gen (K : Crypto) (s2 : Smp2State) (m3 : Smp3Msg) (r7 : Nat) : Res Smp4Ms
   pure ⟨cr, d7, rb⟩
 
 def smp4Verify (K : Crypto) (isGE : Nat → Bool) (s3 : Smp3State) (m : Smp4Msg) : Bool :=
-  isGE m.rb && verifyZKP4 K m.cr s3.g3b m.d7 s3.qaqb m.rb 8
+  isGE m.rb && isExponent m.d7 && verifyZKP4 K m.cr s3.g3b m.d7 s3.qaqb m.rb 8
 
 /-- verifySMP4ProtocolSuccess -/
 def smp4Success (K : Crypto) (s1 : Smp1State) (s3 : Smp3State) (m : Smp4Msg) : Bool :=
